@@ -184,6 +184,35 @@ impl<'a> World<'a> {
             self.pending_eff = None;
             self.step(op);
         }
+        // the object the failed call operated on may hold old, new or mixed contents - but using it must
+        // neither panic nor hang
+        if let Some((vol, dir, name)) = involved {
+            let ds = self.dslots.iter().position(|s| s.cur.as_ref().map_or(false, |(_, d)| d.vol == vol && d.dir == dir));
+            let free_f = self.fslots.iter().position(|s| s.cur.is_none());
+            if let (Some(ds), Some(_), Some(nm)) = (ds, free_f, crate::names::sfn_to_string(&name)) {
+                let dh = self.dslots[ds].cur.as_ref().unwrap().0;
+                let r = self.call(|f| {
+                    if let Ok(h) = f.open_file(dh, &crate::fs::Name::Str(nm.clone()), embedded_sdmmc::Mode::ReadOnly, 0) {
+                        let mut buf = vec![0u8; 4096];
+                        let mut total = 0usize;
+                        loop {
+                            match f.read(h, &mut buf, 0) {
+                                Ok(0) | Err(_) => break,
+                                Ok(n) => total += n,
+                            }
+                            if total > 8_000_000 {
+                                break;
+                            }
+                        }
+                        let _ = f.close_file(h, 0);
+                    }
+                });
+                if let Err(p) = r {
+                    self.violate("C11", if p.hang { "hang-using-the-object-of-the-failed-call" } else { "panic-using-the-object-of-the-failed-call" }, op.kind(), p.msg);
+                }
+                self.probes.hit("object_of_failed_call_used_afterwards");
+            }
+        }
         // (2) every handle can still be used and closed
         let files: Vec<u8> = (0..self.fslots.len() as u8).filter(|&i| self.fslots[i as usize].cur.is_some()).collect();
         for fsl in files {
